@@ -18,9 +18,15 @@ def canon(test, truth=True):
     the positive operator; every ordering comparison is expressed with `<`
     (a > b == b < a; a <= b == not (b < a); a >= b == not (a < b))."""
     t = test
-    while isinstance(t, ast.UnaryOp) and isinstance(t.op, ast.Not):
-        t = t.operand
-        truth = not truth
+    while True:
+        if isinstance(t, ast.UnaryOp) and isinstance(t.op, ast.Not):
+            t = t.operand
+            truth = not truth
+        elif isinstance(t, ast.Call) and isinstance(t.func, ast.Name) and \
+                t.func.id == 'bool' and len(t.args) == 1 and not t.keywords:
+            t = t.args[0]        # the truth of bool(x) is the truth of x
+        else:
+            break
     if isinstance(t, ast.Compare) and len(t.ops) == 1:
         op = t.ops[0]
         l, r = t.left, t.comparators[0]
